@@ -181,6 +181,38 @@ def isRotation (m : M4 Q) (tol : Q) : Bool :=
   ratAbs (dot3q c0 c1) ≤ tol && ratAbs (dot3q c0 c2) ≤ tol && ratAbs (dot3q c1 c2) ≤ tol &&
   ratAbs (Spec.Mat.det4 m - 1) ≤ tol
 
+def sqrtQ (q : Q) : Q := if q ≤ 0 then 0 else q * recipSqrt q
+
+/-- Spec of `orient_y(a, x)` / `orient_z(a, x)` on the implementation's matrix (exact arithmetic on its entries):
+* the primary axis is sent to `a` exactly;
+* the normalised axis `n` (image of z for `orient_y`, of y for `orient_z`) is a unit vector, orthogonal to `a` and to `x`,
+  pointing along `c = x × a` (`a × x`);
+* the x axis is sent to `a × n` (`n × a`); no translation;
+* if `a` is a unit vector the result is a rotation (orthonormal, determinant 1) — whatever the length of the auxiliary `x` and
+  however close to parallel the two are, as long as their cross product is not zero.
+Direction tolerance: 1e-5 plus the rounding amplification of the cross product, 32·ε·|x||a|/|x×a| (cancellation between nearly
+parallel axes is a property of the input, not of the code). -/
+def orientJudge (name : String) (a x c prim n third : V3 Q) (isY : Bool) (noTransl : Bool) (m : M4 Q) : Option (String × String) :=
+  let aa := dot3q a a; let xx := dot3q x x; let cc := dot3q c c; let nn := dot3q n n
+  if cc == 0 then none   -- exactly parallel or zero axes: the debug assertion's business
+  else
+    let amp := sqrtQ (aa * xx) * recipSqrt cc
+    let tau : Q := 1 / 100000 + 32 * epsF32 * amp
+    let t5 : Q := 1 / 100000
+    let want3 := if isY then cross a n else cross n a
+    let d := third.sub want3
+    if prim != a then some ("orient-effect", s!"{name}: the primary axis is not sent to the given vector")
+    else if !noTransl || !isAffine m then some ("orient-effect", s!"{name}: result has a translation or a projective row")
+    else if ratAbs (nn - 1) > 1 / 10000 then
+      some ("orient-axis-not-unit", s!"{name}: the normalised axis has squared length {ratApprox nn} (|x×a|² = {ratApprox cc})")
+    else if (dot3q n a) * (dot3q n a) > tau * tau * aa * nn || (dot3q n x) * (dot3q n x) > tau * tau * xx * nn then
+      some ("orient-effect", s!"{name}: the normalised axis is not orthogonal to both arguments (tolerance {ratApprox tau})")
+    else if dot3q n c ≤ 0 then some ("orient-effect", s!"{name}: the normalised axis points against the cross product")
+    else if dot3q d d > t5 * t5 * 16 * aa * nn then some ("orient-effect", s!"{name}: x axis is not the cross product of the other two")
+    else if ratAbs (aa - 1) ≤ t5 && !isRotation m (1 / 10000 + 4 * tau) then
+      some ("orient-not-rotation", s!"{name} with a unit primary axis is not a rotation (orthonormal, det 1)")
+    else none
+
 /-- The defining effect of a single constructor, judged on the implementation's matrix `m`
 (exact arithmetic on its entries), its reported trig pair, and the case parameters. -/
 def ctorSpec (s : Spec) (trig : List Q) (m : M4 Q) : Option (String × String) :=
@@ -212,19 +244,8 @@ def ctorSpec (s : Spec) (trig : List Q) (m : M4 Q) : Option (String × String) :
           else lin ez == ez && lin ey == ⟨sn, cs, 0⟩ && lin ex == ⟨cs, -sn, 0⟩
         if ok then none else some ("rotate-effect", "rotation does not turn the plane by the reported (sin, cos)")
     | _ => some ("rotate-effect", "no trig pair reported")
-  | .OY a x =>
-    -- y ↦ new_y exactly; z ↦ unit vector orthogonal to x and new_y; x ↦ new_y × new_z
-    let z := lin ez
-    let ok := lin ey == a && ratAbs (dot3q z a) ≤ t5 * (1 + dot3q a a) && ratAbs (dot3q z x) ≤ t5 * (1 + dot3q x x) &&
-      ratAbs (dot3q z z - 1) ≤ t5 * 10 && (let c := cross a z; let d := (lin ex).sub c; dot3q d d ≤ t5 * t5 * (1 + dot3q a a)) &&
-      pt o == o
-    if ok then none else some ("orient-effect", "orient_y: y axis not sent to new_y, or new z not unit/orthogonal to x and new_y")
-  | .OZ a x =>
-    let y := lin ey
-    let ok := lin ez == a && ratAbs (dot3q y a) ≤ t5 * (1 + dot3q a a) && ratAbs (dot3q y x) ≤ t5 * (1 + dot3q x x) &&
-      ratAbs (dot3q y y - 1) ≤ t5 * 10 && (let c := cross y a; let d := (lin ex).sub c; dot3q d d ≤ t5 * t5 * (1 + dot3q a a)) &&
-      pt o == o
-    if ok then none else some ("orient-effect", "orient_z: z axis not sent to new_z, or new y not unit/orthogonal to x and new_z")
+  | .OY a x => orientJudge "orient_y" a x (cross x a) (lin ey) (lin ez) (lin ex) true (pt o == o) m
+  | .OZ a x => orientJudge "orient_z" a x (cross a x) (lin ez) (lin ey) (lin ex) false (pt o == o) m
   | .M mm => if m == mm then none else some ("matrix-new-effect", "Matrix::new does not store its elements")
 
 def countR (ss : List Spec) : Nat := (ss.filter fun s => match s with | .R _ => true | _ => false).length
